@@ -36,13 +36,14 @@ func init() {
 		Kinds: []core.Kind{core.ReplayOf("normal", c05Normal), core.ReplayOf("t", c05T), core.ReplayOf("delta", c05Delta)},
 		Rule: "NormalDist on the (Mu,Sigma) lattice {-1e6,-3.5,0,2,1e6} x {1e-6,0.5,1,3,1e6} with x = Mu + k*Sigma/8, k=-320..320 (+-40 standard units) and a p lattice down to 1e-300 including Acklam's region switch +-1 ulp; " +
 			"TDist on V in {0.1,0.25,0.5,1,1.5,2,3,4.5,10,30,100,1e3,1e4} with x = k/8 and +-10^j; DeltaDist on 5 locations. Oracle: erfc series in up to 5000-bit big.Float on the exact standardised argument; finite closed form of the t CDF for integer V, gonum StudentsT elsewhere. " +
-			"Each parameter set is one case (non-trivial); every lattice point is one library evaluation.",
+			"Rand with 3 seeded sources and with the nil (global, re-seeded) source bit for bit against NormFloat64()*Sigma+Mu. Each parameter set is one case (non-trivial); every lattice point is one library evaluation.",
 		Technique: "bounded-exhaustive lattice enumeration of the real distributions against high-precision references; integrals by 20-point Gauss-Legendre per lattice cell",
 		Assumptions: []string{
 			"CDF accuracy 1e-9 absolute; normal monotonicity slack 1e-15, t monotonicity slack 1e-11; symmetry 1e-12 on exactly symmetric argument pairs",
 			"CDF(InvCDF(p))=p to 1e-9 relative is asserted when |z| (|Mu|/Sigma) 2^-52 < 1e-10 (the quantile is representable); otherwise InvCDF is compared with the big.Float quantile to 2 ulp of x + 1e-9 Sigma/(1+|z|)",
 			"the integral check is skipped where the argument grid itself cannot resolve the density (ulp(x)/Sigma >= 6.6e-9, i.e. Mu=+-1e6 with Sigma=1e-6)",
 			"between lattice points only monotonicity at lattice resolution is decided",
+			"nil-source Rand: math/rand's global source is re-seeded by the harness (rand.Seed is effective on go1.23; if it is not, only the 64-draw standardised moment bounds |mean|<=1.5, 0.1<=m2<=5, |z|<=40 are checked: a correct implementation fails them with probability < 1e-30)",
 		},
 	})
 }
@@ -195,6 +196,59 @@ func c05Normal(c *C05Normal, r *core.Rec) {
 			if !sameF(got, want) {
 				r.Fail("N-Rand", "Rand draw %d with seed %d = %v, NormFloat64()*Sigma+Mu = %v", i, seed, got, want)
 			}
+		}
+	}
+	normalNilRand(d.Rand, c.Mu, c.Sigma, r, "N-Rand-nil", fmt.Sprintf("NormalDist{%v,%v}.Rand(nil)", c.Mu, c.Sigma))
+}
+
+// normalNilRand checks draws taken with a nil source (math/rand's global
+// source). Where the global source can be seeded the draws are compared bit for
+// bit with NormFloat64()*Sigma+Mu from a twin generator; in any case 64 draws,
+// standardised with Mu and Sigma, must look like standard normal draws (bounds
+// so wide that a correct implementation fails with probability < 1e-30).
+func normalNilRand(draw func(*rand.Rand) float64, mu, sigma float64, r *core.Rec, name, tag string) {
+	const seed = 20260926
+	rand.Seed(seed)
+	probe := rand.Int63()
+	twin := rand.New(rand.NewSource(seed))
+	if probe == twin.Int63() {
+		rand.Seed(seed)
+		twin = rand.New(rand.NewSource(seed))
+		for i := 0; i < 8; i++ {
+			got, want := draw(nil), twin.NormFloat64()*sigma+mu
+			r.Trans(1)
+			if !sameF(got, want) {
+				r.Fail(name, "%s: draw %d from the global source seeded %d = %v, NormFloat64()*Sigma+Mu = %v", tag, i, seed, got, want)
+				return
+			}
+		}
+		r.Count("rand_nil_seeded", 1)
+	} else {
+		r.Count("rand_nil_seed_ineffective", 1)
+	}
+	if !(sigma > 0) || math.IsInf(sigma, 0) || math.IsInf(mu, 0) {
+		return
+	}
+	const n = 64
+	var s1, s2 float64
+	for i := 0; i < n; i++ {
+		z := (draw(nil) - mu) / sigma
+		r.Trans(1)
+		if !(math.Abs(z) <= 40) {
+			r.Fail(name, "%s: a draw lies %v standard deviations from Mu", tag, z)
+			return
+		}
+		s1 += z
+		s2 += z * z
+	}
+	// the mean is only resolved to eps*|Mu|/Sigma in standardised units
+	res := 4 * ref.Eps * math.Abs(mu) / sigma
+	if m := s1 / n; math.Abs(m) > 1.5+res {
+		r.Fail(name, "%s: the standardised mean of %d draws is %v (12 standard errors = 1.5)", tag, n, m)
+	}
+	if res < 0.01 {
+		if v := s2 / n; v < 0.1 || v > 5 {
+			r.Fail(name, "%s: the standardised second moment of %d draws is %v, want about 1", tag, n, v)
 		}
 	}
 }
